@@ -1020,6 +1020,9 @@ func (fr *Frame) execCopy(v ssa.Value, cc *ssa.CallCommon, args []Term, ins ssa.
 	}
 	n = vc.define(fr.vname(v)+"_n", n)
 	fr.vals[v] = n
+	if te.isStructVal(e) && fr.copyStructs(e, dst, src, n, ins) {
+		return
+	}
 	if te.isAggregate(e) {
 		vc.note("copy of aggregate elements approximated by havoc")
 		out := map[string]string{}
@@ -1051,6 +1054,35 @@ func (fr *Frame) execCopy(v ssa.Value, cc *ssa.CallCommon, args []Term, ins ssa.
 			nInner.S, sOff(dst).S, sOff(dst).S, n.S, srcElem(Term{"(- i " + sOff(dst).S + ")", SInt}).S, dInner.S, nInner.S), SBool})
 	}
 	fr.cur.Set(hn, vc.define(hn+"!s", tStore(h, sArr(dst), nInner)))
+}
+
+// copyStructs models copy(dst, src) for slices of structs whose fields are all scalars: per field heap, the first n
+// elements of dst take the values of the first n elements of src (read in the state before the copy, as Go's copy
+// does for overlapping slices); every other object keeps its value.  Returns false when a field is itself an aggregate.
+func (fr *Frame) copyStructs(e types.Type, dst, src, n Term, ins ssa.Instruction) bool {
+	te := fr.te()
+	vc := fr.vc
+	stT := e.Underlying().(*types.Struct)
+	for f := 0; f < stT.NumFields(); f++ {
+		if te.isAggregate(stT.Field(f).Type()) {
+			return false
+		}
+	}
+	efn := smtName("elem_" + typeName(e))
+	te.elemObj(e, tInt(0), tInt(0)) // ensure declared
+	ii := smtName("invi_" + efn)
+	for f := 0; f < stT.NumFields(); f++ {
+		ft := stT.Field(f).Type()
+		hn := te.fieldHeap(e, f)
+		hs := arraySort(SInt, te.SortOf(ft))
+		h := fr.cur.Get(hn, hs)
+		fr.checkFrame(&Loc{Kind: "field", Base: te.elemObj(e, sArr(dst), sOff(dst)), Heap: hn, Typ: ft}, ins)
+		hnew := vc.fresh("copyf", hs)
+		vc.assume(Term{fmt.Sprintf("(forall ((p Int)) (! (= (select %s p) (ite (and (= p (%s %s (%s p))) (<= %s (%s p)) (< (%s p) (+ %s %s))) (select %s (%s %s (+ %s (- (%s p) %s)))) (select %s p))) :pattern ((select %s p))))",
+			hnew.S, efn, sArr(dst).S, ii, sOff(dst).S, ii, ii, sOff(dst).S, n.S, h.S, efn, sArr(src).S, sOff(src).S, ii, sOff(dst).S, h.S, hnew.S), SBool})
+		fr.cur.Set(hn, vc.define(hn+"!s", hnew))
+	}
+	return true
 }
 
 // callModifies adds to heaps the heap variables a call may modify (by contract); returns true if unknown (everything).
